@@ -63,7 +63,12 @@ func vfGenConf(t *rapid.T, cam vfCamDesc, simpleMotion bool) vfConf {
 	c := vfConf{}
 	c.DeviceID = rapid.SampledFrom([]int{0, 1, 42, 999999}).Draw(t, "devid")
 	c.DeviceName = vfGenText(t, "devname")
-	if rapid.Bool().Draw(t, "haslocation") {
+	c.LocKeys = rapid.SampledFrom([]int{0, 0, 1, 2}).Draw(t, "lockeys")
+	if c.LocKeys == 2 {
+		c.Alt = float64(rapid.SampledFrom([]float32{0, 12.5}).Draw(t, "alt2"))
+		c.Acc = float64(rapid.SampledFrom([]float32{0, 5}).Draw(t, "acc2"))
+	}
+	if c.LocKeys == 0 && rapid.Bool().Draw(t, "haslocation") {
 		c.Lat = float64(rapid.SampledFrom([]float32{-43.5, 0, 51.25, -89.999}).Draw(t, "lat"))
 		c.Lon = float64(rapid.SampledFrom([]float32{172.625, 0, -0.125, 179.99}).Draw(t, "lon"))
 		c.Alt = float64(rapid.SampledFrom([]float32{0, 12.5, 2500}).Draw(t, "alt"))
@@ -313,6 +318,9 @@ func vfC11Valid(c vfC11Case) string {
 	k := c.Conf
 	if k.Min < 0 || k.Max < k.Min || k.Prev < 0 || len(k.DeviceName) > 255 || len(cam.Firmware) > 255 || k.Alt < 0 || (k.Throttle && k.Min+k.Prev < 1) {
 		return "configuration outside the property's domain"
+	}
+	if (k.LocKeys == 1 && (k.Lat != 0 || k.Lon != 0 || k.Alt != 0 || k.Acc != 0 || k.LocTime != "")) || (k.LocKeys == 2 && (k.Lat != 0 || k.Lon != 0 || k.LocTime != "")) || k.LocKeys < 0 || k.LocKeys > 2 {
+		return "location values given for keys that are not written"
 	}
 	eff := vfEffectiveMotion(cam.Model, k.Motion)
 	if k.Prev*cam.FPS+eff.TriggerFrames < 1 || eff.CountThresh < 1 || eff.FrameCompareGap < 1 || 2*eff.EdgePixels >= cam.W-2 || 2*eff.EdgePixels >= cam.H-2 {
